@@ -255,7 +255,7 @@ theorem govExec_fine (wall : Nat) (s : State) (m : Msg) (hg : GrantsOK s) :
   split
   · exact ⟨.refl _, hg⟩
   · rename_i hsig
-    have hsig' : m.SignedOK := ⟨Mgov, by simpa using hsig, Or.inr rfl⟩
+    have hsig' : m.SignedOK := ⟨Mgov, by simpa using hsig, Or.inr (Or.inl rfl)⟩
     split
     · rename_i s' r h
       simp only [handle, bind_eq_ok] at h
@@ -317,7 +317,7 @@ theorem govExecAll_fine (wall : Nat) (s : State) (msgs : List Msg) (hg : GrantsO
     have hsig : ∀ m ∈ msgs, m.SignedOK := by
       intro m hm
       have := List.all_eq_true.mp hall m hm
-      exact ⟨Mgov, by simpa using this, Or.inr rfl⟩
+      exact ⟨Mgov, by simpa using this, Or.inr (Or.inl rfl)⟩
     split
     · rename_i s' rs h
       exact runMsgs_signed wall FinePath .refl (fun _ _ _ => FinePath.trans)
@@ -359,11 +359,15 @@ theorem fineReach_path (g : GenCfg) (a b : State) (hp : FinePath a b) :
   | refl => exact id
   | cons a b c hab _ ih => exact fun ha => ih (.step a b ha trivial hab)
 
+/-- the grants of the genesis document are given by accounts that may act at all (never by a module account of the
+application other than gov) -/
+def GenGrantsOK (g : GenCfg) : Prop := ∀ ga ea k, (ga, ea, k) ∈ g.grants → MaySign ga
+
 /-- without a history assumption every coarsely reachable state is finely reachable -/
-theorem reachable_fine (g : GenCfg) (s : State) (h : Reachable g s) :
+theorem reachable_fine (g : GenCfg) (hgg : GenGrantsOK g) (s : State) (h : Reachable g s) :
     FineReach g (fun _ => True) s ∧ GrantsOK s := by
   induction h with
-  | init => exact ⟨.init, by constructor <;> simp [initState]⟩
+  | init => exact ⟨.init, ⟨hgg, by simp [initState]⟩⟩
   | step s s' _ hs ih =>
     obtain ⟨hp, hg'⟩ := chainStep_fine s s' hs ih.2
     exact ⟨fineReach_path g s s' hp ih.1, hg'⟩
